@@ -22,6 +22,14 @@ def setup_overlay():
 
 
 def main():
+    cov = None
+    if os.environ.get("VERIF_COVERAGE"):
+        # tools/coverage_report.py: which lines of the library the correspondence streams execute (never part of a registered check)
+        import coverage
+        ov = os.environ["ZI_OVERLAY"]
+        cov = coverage.Coverage(data_file=os.path.join(os.environ["VERIF_COVERAGE"], "cov"), data_suffix=True, branch=True,
+                                include=[os.path.join(ov, "zope", "interface", "*.py"), os.path.join(ov, "zope", "interface", "common", "*.py")])
+        cov.start()
     setup_overlay()
     layer = sys.argv[1]
     mod = __import__("harness.layers." + layer, fromlist=["run"])
@@ -31,6 +39,9 @@ def main():
     out = sys.stdout
     mod.run(lines, out, sys.argv[2:])
     out.flush()
+    if cov is not None:
+        cov.stop()
+        cov.save()
 
 
 if __name__ == "__main__":
